@@ -76,7 +76,7 @@ def parseTok (sc : Scenario) (t : String) : Option Tok :=
   | ["stop_ok"] => some (.ev0 .close)
   | [m] =>
     if m ∈ ["gate", "open", "rel", "drain_begin", "drain_ok", "drain_err", "drain_nopoll", "settled",
-            "unsettled", "stop_noop", "start_err"] then
+            "unsettled", "stop_noop", "stop_hung", "start_err"] then
       some (.mark m) else none
   | ["pc", n] => do let n ← n.toNat?; pure (.ev0 (.pc n))
   | ["pcq", n] => do let n ← n.toNat?; pure (.ev0 (.pcq n))
